@@ -1518,7 +1518,7 @@ func (e *Env) goastImports() {
 				return true
 			}
 			fn := c.Callee(call)
-			if fn == nil || fn.Pkg() != pkg.Types || fn.Name() == "mustUnquote" {
+			if fn == nil || fn.Pkg() != pkg.Types || load.CanonName(fn) == "mustUnquote" {
 				return true
 			}
 			for _, d := range load.AllFuncDecls(pkg) {
@@ -1622,7 +1622,7 @@ func (e *Env) goastImports() {
 	for _, st := range body {
 		ast.Inspect(st, func(n ast.Node) bool {
 			if call, ok := n.(*ast.CallExpr); ok && len(call.Args) == 1 {
-				if fn := c.Callee(call); fn != nil && fn.Name() == "mustUnquote" {
+				if fn := c.Callee(call); fn != nil && load.CanonName(fn) == "mustUnquote" {
 					if se, ok := call.Args[0].(*ast.SelectorExpr); ok && se.Sel.Name == "Value" {
 						if pe, ok := se.X.(*ast.SelectorExpr); ok && pe.Sel.Name == "Path" {
 							if t := c.Info.TypeOf(pe.X); t != nil && strings.HasSuffix(t.String(), "go/ast.ImportSpec") {
@@ -1756,7 +1756,7 @@ func (e *Env) goastSpecLoop(c *schema.Ctx, fd *ast.FuncDecl) *ast.RangeStmt {
 					return true
 				}
 				fn := c.Callee(x)
-				if fn == nil || fn.Pkg() != c.Pkg.Types || fn.Name() == "mustUnquote" {
+				if fn == nil || fn.Pkg() != c.Pkg.Types || load.CanonName(fn) == "mustUnquote" {
 					return true
 				}
 				for _, a := range x.Args {
